@@ -142,6 +142,29 @@ def run_case(case, acc):
             except Exception as e:
                 acc.violation(f"C20:{how}:across_groups_raised:{type(e).__name__}", case, f"{how}: get_summary_across_groups raised {e!r} in\n{text}")
                 ok = False
+        # history independence of lookups: summarising (also through ValueSummary(stat.get(g, m)), the idiom of the library's
+        # own tests) must not disturb what later per-subject lookups return
+        try:
+            from panoptica import ValueSummary
+
+            for (g, m), c in col.items():
+                if all(v is not None for v in c):
+                    ValueSummary(st.get(g, m))
+                st.get(g, m, remove_nones=True)
+            for s in range(ns):
+                one = st.get_one_subject(subjects[s])
+                for g in groups:
+                    for m in metrics:
+                        if not rm.close(one[g][m], col[(g, m)][s]):
+                            acc.violation(f"C20:{how}:subject_value_after_summaries", case, f"{how}: after computing summaries get_one_subject({subjects[s]})[{g}][{m}]={one[g][m]!r}, recorded {col[(g, m)][s]!r} in\n{text}")
+                            ok = False
+            for (g, m), c in col.items():
+                if [x for x in st.get(g, m)] != c and not all(rm.close(a, b) for a, b in zip(st.get(g, m), c)):
+                    acc.violation(f"C20:{how}:column_order_after_summaries", case, f"{how}: after computing summaries get({g},{m})={st.get(g, m)!r}, recorded in subject order {c!r}")
+                    ok = False
+        except Exception as e:
+            acc.violation(f"C20:{how}:lookup_after_summaries_raised:{type(e).__name__}", case, f"{how}: {e!r} in\n{text}")
+            ok = False
         acc.outcome(tuple(sorted((k, round(v, 9)) for k, v in avgs.items())))
         if ok:
             acc.ok()
